@@ -147,6 +147,10 @@ func sortedKeys[V any](m map[string]V) []string {
 // finish fills the outcome from the simulation results.
 func (o *Outcome) finish(st simrt.Stats, panics []simrt.PanicInfo, berr string, allowLeak bool) {
 	o.Stats = st
+	if len(o.Trace) == 0 {
+		o.Trace = st.Trace
+	}
+	o.Stats.Trace = nil
 	if st.Adoptions > 0 {
 		o.HarnessErr = fmt.Sprintf("unmanaged goroutine adopted %d times (determinism not guaranteed)", st.Adoptions)
 	}
